@@ -12,7 +12,7 @@ CONSTANTS
   Mech = "none"
   Preset = "none"
   UseFp = FALSE
-  Dts = {0, 1, 2, 7}
+  Dts = {0, 2, 7}
   StaleTicks = 6
   MaxNow = 40
   FixD1 = TRUE
